@@ -204,6 +204,12 @@ const FRAMES: &[(&str, &[&str])] = &[
     ("annotation-parameters", &["package", "a", ";", "@A", "(", HOLE, ")", "interface", "I", "{", "}"]),
     ("after-the-item", &["package", "a", ";", "interface", "I", "{", "}", HOLE]),
     ("qualified-name", &["package", HOLE, ";", "interface", "I", "{", "}"]),
+    ("import-name", &["package", "a", ";", "import", HOLE, ";", "interface", "I", "{", "}"]),
+    ("forward-declaration-name", &["package", "a", ";", "parcelable", HOLE, ";", "interface", "I", "{", "}"]),
+    ("after-method-parenthesis", &["package", "a", ";", "interface", "I", "{", "void", "f", "(", ")", HOLE, ";", "}"]),
+    ("enum-element-value", &["package", "a", ";", "enum", "E", "{", "A", "=", HOLE, ",", "B", "}"]),
+    ("inside-generic", &["package", "a", ";", "parcelable", "P", "{", "Map", "<", HOLE, ">", "x", ";", "}"]),
+    ("item-header", &["package", "a", ";", HOLE, "I", "{", "}"]),
 ];
 
 fn slot_seqs(max_len: u32) -> u64 {
@@ -328,7 +334,7 @@ impl Prop for C03 {
         "C03"
     }
     fn rule(&self) -> String {
-        "enumerated: (1) ten well-formed frames with a hole (between statements, interface / parcelable / enum body, argument list, type, value, annotation parameters, after the item, qualified name) x every sequence of token kinds (34 kinds, one representative text each) up to length 2 (thorough 3); (2) every keyword and reserved word and four near-keywords derived from each, in each of 14 identifier positions. Random: token-level mutations (insert / delete / replace / swap / duplicate / truncate / splice / keyword-as-name) of rendered documents under random layouts, token soups, and lexical boundary strings / character soups inside a value slot. Oracle: reference verdict (hand-written lexer + Earley recogniser over the transcribed grammar) well-formed <=> parse-stage result clean (tree and no diagnostic, via the hook accessor); malformed => >= 1 Error in the parse-stage result, all syntax diagnostics kept by validate(), first syntax diagnostic at the reference's first non-viable token; no tree => >= 1 Error; no keyword / reserved word stored as a user-chosen identifier in any returned tree. Non-trivial = malformed with the first error after token 0, or well-formed with > 8 tokens; distinct by token-kind sequence.".into()
+        "enumerated: (1) sixteen well-formed frames with a hole (between statements, interface / parcelable / enum body, argument list, type, value, annotation parameters, after the item, qualified name, import name, forward-declaration name, after a method's parenthesis, enum element value, inside a generic, item header) x every sequence of token kinds (34 kinds, one representative text each) up to length 2 (thorough 3); (2) every keyword and reserved word and four near-keywords derived from each, in each of 14 identifier positions. Random: token-level mutations (insert / delete / replace / swap / duplicate / truncate / splice / keyword-as-name) of rendered documents under random layouts, token soups, and lexical boundary strings / character soups inside a value slot. Oracle: reference verdict (hand-written lexer + Earley recogniser over the transcribed grammar) well-formed <=> parse-stage result clean (tree and no diagnostic, via the hook accessor); malformed => >= 1 Error in the parse-stage result, all syntax diagnostics kept by validate(), first syntax diagnostic at the reference's first non-viable token; no tree => >= 1 Error; no keyword / reserved word stored as a user-chosen identifier in any returned tree. Non-trivial = malformed with the first error after token 0, or well-formed with > 8 tokens; distinct by token-kind sequence.".into()
     }
     fn assumptions(&self) -> Vec<String> {
         vec![
